@@ -197,6 +197,9 @@ func (in *Interp) valueEq(st *State, a, b Value) *Term {
 	case Slice:
 		y := b.(Slice)
 		if x.Str {
+			if x.Opaque || y.Opaque {
+				panic(endPath{kind: "unsupported", msg: "comparison of a formatted string the engine did not evaluate (symbolic or method-formatted argument)"})
+			}
 			if x.Len != y.Len {
 				return tf.False()
 			}
@@ -744,6 +747,9 @@ func (in *Interp) builtin(st *State, name string, args []Value, retTo ssa.Value,
 	case "len":
 		switch a := args[0].(type) {
 		case Slice:
+			if a.Opaque {
+				panic(endPath{kind: "unsupported", msg: "len of a formatted string the engine did not evaluate", pos: pos})
+			}
 			return in.tf.ConstU(64, uint64(a.Len))
 		case MapRef:
 			if a.Nil {
